@@ -210,7 +210,14 @@ func (g *rgen) cands(t types.Type, hintInts []int64, hintLens []int64) []string 
 		if _, ok := isIntKind(u.Elem()); ok {
 			var out []string
 			out = append(out, ts+"(nil)", ts+"{}")
-			// model-suggested lengths first
+			// the solver's countermodel first: its element values, then sequences of its lengths
+			for _, sq := range modelSeqs {
+				var xs []string
+				for _, v := range sq {
+					xs = append(xs, fmt.Sprint(v))
+				}
+				out = append(out, ts+"{"+strings.Join(xs, ",")+"}")
+			}
 			for _, n := range hintLens {
 				if n > 0 && n <= 12 {
 					var xs, ys []string
@@ -337,6 +344,7 @@ func (g *rgen) copyExpr(t types.Type, x string, depth int) string {
 
 type trEnv struct {
 	old   bool
+	pos   bool              // positive position of a clause to be checked: a conjunct that cannot be expressed may be dropped (weakens the check, never strengthens it)
 	bound map[string]string // bound variable / macro parameter -> Go code
 }
 
@@ -398,6 +406,35 @@ func (g *rgen) tr(e SExpr, env *trEnv) (string, bool) {
 	case *SNil:
 		return "nil", true
 	case *SBin:
+		if x.Op == "&&" && env.pos {
+			l, ok1 := g.tr(x.L, env)
+			r, ok2 := g.tr(x.R, env)
+			switch {
+			case ok1 && ok2:
+				return "(" + l + " && " + r + ")", true
+			case ok1:
+				return l, true
+			case ok2:
+				return r, true
+			}
+			return "", false
+		}
+		if x.Op == "==>" && env.pos {
+			en := *env
+			en.pos = false
+			l, ok1 := g.tr(x.L, &en)
+			r, ok2 := g.tr(x.R, env)
+			if !ok1 || !ok2 {
+				return "", false
+			}
+			return "(!(" + l + ") || (" + r + "))", true
+		}
+		if env.pos {
+			// any other operator: its operands must be expressed exactly
+			en := *env
+			en.pos = false
+			env = &en
+		}
 		l, ok1 := g.tr(x.L, env)
 		r, ok2 := g.tr(x.R, env)
 		if !ok1 || !ok2 {
@@ -417,6 +454,11 @@ func (g *rgen) tr(e SExpr, env *trEnv) (string, bool) {
 		}
 		return "", false
 	case *SUn:
+		if env.pos {
+			en := *env
+			en.pos = false
+			env = &en
+		}
 		v, ok := g.tr(x.X, env)
 		if !ok {
 			return "", false
@@ -426,6 +468,11 @@ func (g *rgen) tr(e SExpr, env *trEnv) (string, bool) {
 		}
 		return "", false
 	case *SCond:
+		if env.pos {
+			en := *env
+			en.pos = false
+			env = &en
+		}
 		c, ok1 := g.tr(x.C, env)
 		a, ok2 := g.tr(x.A, env)
 		b, ok3 := g.tr(x.B, env)
@@ -462,6 +509,13 @@ func (g *rgen) tr(e SExpr, env *trEnv) (string, bool) {
 		}
 		return a + "[" + lo + ":" + hi + "]", true
 	case *SCall:
+		if env.pos {
+			if idm, ok := x.Fn.(*SIdent); !ok || g.macro(idm.Name) == nil {
+				en := *env
+				en.pos = false
+				env = &en
+			}
+		}
 		id, isId := x.Fn.(*SIdent)
 		var args []string
 		trArgs := func() bool {
@@ -520,10 +574,18 @@ func (g *rgen) tr(e SExpr, env *trEnv) (string, bool) {
 					return "true", true
 				}
 				if m := g.macro(id.Name); m != nil && len(m.Params) == len(x.Args) {
-					if !trArgs() {
-						return "", false
+					{
+						en := *env
+						en.pos = false
+						saved := env
+						env = &en
+						okA := trArgs()
+						env = saved
+						if !okA {
+							return "", false
+						}
 					}
-					e2 := &trEnv{old: env.old, bound: map[string]string{}}
+					e2 := &trEnv{old: env.old, pos: env.pos, bound: map[string]string{}}
 					for k, v := range env.bound {
 						e2.bound[k] = v
 					}
@@ -541,7 +603,7 @@ func (g *rgen) tr(e SExpr, env *trEnv) (string, bool) {
 		}
 		return f + "(" + strings.Join(args, ", ") + ")", true
 	case *SQuant:
-		e2 := &trEnv{old: env.old, bound: map[string]string{}}
+		e2 := &trEnv{old: env.old, pos: env.pos && x.Forall, bound: map[string]string{}}
 		for k, v := range env.bound {
 			e2.bound[k] = v
 		}
@@ -819,8 +881,9 @@ func replayFunctionInst(prog *Program, o *checkOpts, fi *FuncInfo, hintInts, hin
 		if e.Trusted || (len(e.Props) > 0 && !hasProp(e.Props, o.prop)) {
 			continue
 		}
+		penv := &trEnv{pos: true, bound: map[string]string{}}
 		for _, cj := range specConjuncts(e.E) {
-			if code, ok := g.tr(cj, env); ok {
+			if code, ok := g.tr(cj, penv); ok {
 				ens = append(ens, chk{code, specString(cj)})
 			}
 		}
@@ -1016,7 +1079,10 @@ func replayFunctionInst(prog *Program, o *checkOpts, fi *FuncInfo, hintInts, hin
 
 // modelHints: integer values of the function's integer parameters and lengths of its slice
 // parameters in the solver's countermodel of a refuted obligation.
+var modelSeqs [][]int64 // element values of the slice parameters in the last countermodel (set by modelHints)
+
 func modelHints(ob *Obligation) (ints, lens []int64, text string) {
+	modelSeqs = nil
 	if ob.Status != "failed" || ob.SMTFile == "" {
 		return nil, nil, ""
 	}
@@ -1068,6 +1134,86 @@ func modelHints(ob *Obligation) (ints, lens []int64, text string) {
 			ints = append(ints, v)
 		}
 		parts = append(parts, m[1]+" = "+fmt.Sprint(v))
+	}
+	// second query: the elements of the slice parameters (integer elements as they are, elements of
+	// an uninterpreted sort - a type parameter - numbered by first appearance)
+	var memArrs []string
+	for _, m := range regexp.MustCompile(`\(declare-const (\|g_H0_mem:[^|]+\||g_H0_mem:[A-Za-z0-9_]+) \(Array ArrId \(Array Int ([A-Za-z0-9_]+)\)\)\)`).FindAllStringSubmatch(string(data), -1) {
+		if m[2] == "Int" || strings.HasPrefix(m[2], "g_S_") {
+			memArrs = append(memArrs, m[1])
+		}
+	}
+	lenOf := map[string]int64{}
+	for _, m := range regexp.MustCompile(`\(\(s_len (g_arg_[A-Za-z0-9_]+![0-9]+)\) ([0-9]+)\)`).FindAllStringSubmatch(res, -1) {
+		var v int64
+		fmt.Sscan(m[2], &v)
+		lenOf[m[1]] = v
+	}
+	var elemTerms []string
+	type et struct {
+		p, mem string
+		i      int64
+	}
+	var ets []et
+	for pname, n := range lenOf {
+		if n <= 0 || n > 8 {
+			continue
+		}
+		for _, mem := range memArrs {
+			for i := int64(0); i < n; i++ {
+				elemTerms = append(elemTerms, fmt.Sprintf("(select (select %s (s_arr %s)) (+ (s_off %s) %d))", mem, pname, pname, i))
+				ets = append(ets, et{pname, mem, i})
+			}
+		}
+	}
+	if len(elemTerms) > 0 {
+		script2 := strings.TrimSuffix(strings.TrimSpace(script), "(get-value ("+strings.Join(terms, " ")+"))")
+		script2 += "\n(get-value (" + strings.Join(elemTerms, " ") + "))\n"
+		tmp2, err := os.CreateTemp("", "gvc-model2-*.smt2")
+		if err == nil {
+			tmp2.WriteString(script2)
+			tmp2.Close()
+			out2, _ := exec.Command("z3-new", "-smt2", "-T:10", tmp2.Name()).CombinedOutput()
+			os.Remove(tmp2.Name())
+			r2 := string(out2)
+			if i := strings.Index(r2, "(("); strings.HasPrefix(strings.TrimSpace(r2), "sat") && i >= 0 {
+				// values in order of the terms: the last token before each closing "))" of a pair
+				vals := regexp.MustCompile(`\)\) (\(- [0-9]+\)|[0-9]+|[A-Za-z_][A-Za-z0-9_!]*)\)`).FindAllStringSubmatch(r2[i:], -1)
+				if len(vals) == len(ets) {
+					seqs := map[string][]int64{}
+					names := map[string]int64{}
+					for k, e := range ets {
+						key := e.p + "|" + e.mem
+						vs := vals[k][1]
+						var v int64
+						if strings.HasPrefix(vs, "(-") {
+							fmt.Sscan(strings.TrimSuffix(strings.TrimPrefix(vs, "(- "), ")"), &v)
+							v = -v
+						} else if _, err := fmt.Sscan(vs, &v); err != nil {
+							if id, ok := names[vs]; ok {
+								v = id
+							} else {
+								v = int64(len(names))
+								names[vs] = v
+							}
+						}
+						if v > 1<<31 || v < -(1<<31) {
+							v = v % 7
+						}
+						seqs[key] = append(seqs[key], v)
+					}
+					var keys []string
+					for k := range seqs {
+						keys = append(keys, k)
+					}
+					sort.Strings(keys)
+					for _, k := range keys {
+						modelSeqs = append(modelSeqs, seqs[k])
+						parts = append(parts, fmt.Sprintf("elems(%s) = %v", strings.SplitN(k, "|", 2)[0], seqs[k]))
+					}
+				}
+			}
+		}
 	}
 	sort.Strings(parts)
 	return ints, lens, strings.Join(parts, ", ")
